@@ -4,6 +4,8 @@
   correspondence corpus).
 -/
 import Hpfeeds.Model.Wire
+import Hpfeeds.Model.BlkSession
+import Hpfeeds.Model.BlkClient
 namespace Hpfeeds.Legacy
 open Hpfeeds Extracted
 
@@ -95,5 +97,83 @@ def legacySplitComma (s : Bytes) : List Bytes := s.splitOn 44
 
 /-- an identity with only a SECRET was granted the channel named '' -/
 theorem d3_empty_grant : ([] : Bytes) ∈ legacySplitComma [] := by decide
+
+end Hpfeeds.Legacy
+
+namespace Hpfeeds.Legacy
+open Hpfeeds Extracted
+
+/-! ### D4 — blocking thread session before "fix: blocking ClientSession writes nothing before OP_AUTH and
+    resubscribes once a connection is ready" (commit a2cc5f5): `Reactor._connect` set `when_connected` right
+    after the TCP connect, and `ClientSession.subscribe/publish` put their frame into the reactor's outbox
+    unconditionally. -/
+namespace D4
+open Hpfeeds.BlkSession
+
+def legacyStep (cfg : Cfg) (s : State) : Ev → State × List Out
+  | .connect => let r := step cfg s .connect; ({ r.1 with ready := r.1.live }, r.2)
+  | .wCheck t =>
+    match s.thr t with
+    | .captured _ f =>
+      ({ s with thr := fun u => if u = t then .midPut s.gen else s.thr u,
+                items := s.items ++ [f], mid := s.mid + 1, enq := s.enq ++ [f] }, [])
+    | _ => (s, [])
+  | e => step cfg s e
+
+def legacyRun (cfg : Cfg) (es : List Ev) : State × List Out :=
+  es.foldl (fun acc e => let r := legacyStep cfg acc.1 e; (r.1, acc.2 ++ r.2)) ({}, [])
+
+def exCfg : Cfg := { ident := [109], secret := [115], H := id }
+
+/-- start(); subscribe('c') before OP_INFO arrives: the OP_SUBSCRIBE is on the wire although no OP_INFO was
+    received (`nonce = none`) — the negation of C11.Blk.nothing_before_info, observed on real sockets as
+    "broker sees opcodes [4, 4, 2]" (findings/d4_blocking_session_real_sockets.py) -/
+theorem d4_write_before_auth :
+    (legacyRun exCfg [.connect, .wBegin 1 (.sub [99]), .wCheck 1, .wWake 1, .sel (.accept 100)]).1.nonce = none ∧
+    (legacyRun exCfg [.connect, .wBegin 1 (.sub [99]), .wCheck 1, .wWake 1, .sel (.accept 100)]).1.wire =
+      subFrame exCfg [99] := by decide +kernel
+
+/-- the repaired model on the same events: nothing on the wire -/
+theorem d4_fixed : (run exCfg [.connect, .wBegin 1 (.sub [99]), .wCheck 1, .wWake 1, .sel (.accept 100)]).1.wire = [] := by
+  decide +kernel
+end D4
+
+/-! ### D9 — blocking `Client` before "fix: Client.publish resubscribes after it had to reconnect" (commit
+    56caa82): `publish()` on a send failure called `tryconnect()` and returned. -/
+namespace D9
+open Hpfeeds.BlkClient
+
+def legacyStep (cfg : Cfg) (s : State) (e : Ev) : State × List Out :=
+  match s.pc, e with
+  | .authSend (.pub k) rand, .sendOk =>
+    let s1 := { s with sent := s.sent ++ [authFrame cfg rand], nonce := some rand, pc := .idle }
+    let r := afterPub cfg s1 k          -- back in publish()'s caller: no `_subscribe()`
+    (r.1, .wrote s.nsock (authFrame cfg rand) :: r.2)
+  | _, _ => step cfg s e
+
+def legacyRun (cfg : Cfg) (es : List Ev) : State × List Out :=
+  es.foldl (fun acc e => let r := legacyStep cfg acc.1 e; (r.1, acc.2 ++ r.2)) ({}, [])
+
+/-- message_callback publishes a reply when the payload starts with 'P' -/
+def exCfg : Cfg := { ident := [109], secret := [115], H := id,
+                     react := fun m => match m.2.2 with | 80 :: r => [.pub [114] r] | _ => [] }
+def exInfo (a : UInt8) : Bytes := [0,0,0,12,1,2,104,112,a,8,7,6]
+def exPub : Bytes := [0,0,0,10,3,1,97,1,99,80]
+def exEvs : List Ev :=
+  [.new, .connOk, .data (exInfo 9), .sendOk, .sub [99], .run, .sendOk, .data exPub, .sockErr,
+   .connOk, .data (exInfo 5), .sendOk]
+
+/-- run() with a subscription; the callback's publish() fails, reconnects and authenticates — and run() is back
+    in recv() on a socket on which only OP_AUTH was ever sent although the application wants channel "c":
+    the negation of C11's "Client.run then sends OP_SUBSCRIBE for exactly the channels the application wants"
+    on that connection (real sockets: findings/d9_client_publish_reconnect_no_resubscribe.py) -/
+theorem d9_not_resubscribed :
+    (legacyRun exCfg exEvs).1.pc = .runRecv ∧ (legacyRun exCfg exEvs).1.subs = [[99]] ∧
+    (legacyRun exCfg exEvs).1.sent = [authFrame exCfg [5,8,7,6]] := by decide +kernel
+
+/-- the repaired model on the same events: it is sending the OP_SUBSCRIBE -/
+theorem d9_fixed : (run exCfg exEvs).1.pc = .subSend [99] [] (.pub (.cb [])) := by decide +kernel
+end D9
+
 
 end Hpfeeds.Legacy
